@@ -47,7 +47,7 @@ pub fn data_dir() -> std::path::PathBuf {
   std::env::var("VERIF_SIM").map(std::path::PathBuf::from).unwrap_or_else(|_| std::path::PathBuf::from("/verif/sim")).join("data")
 }
 
-const GEN_INVOCABLES: [&str; 26] = ["tu2", "tany2", "tp2", "to2", "num", "tmp", "rx", "c1", "c2", "c3", "c4", "svc", "tbl", "label", "rel", "lst", "inv", "fnd", "tp", "to", "tr", "tcnt", "tmin", "tdef", "tany", "tfirst"];
+const GEN_INVOCABLES: [&str; 27] = ["rx2", "tu2", "tany2", "tp2", "to2", "num", "tmp", "rx", "c1", "c2", "c3", "c4", "svc", "tbl", "label", "rel", "lst", "inv", "fnd", "tp", "to", "tr", "tcnt", "tmin", "tdef", "tany", "tfirst"];
 
 fn setup() -> &'static Setup {
   SETUP.get_or_init(|| {
@@ -304,7 +304,10 @@ impl C20 {
       }
     }
     let alone_work = simrt::points_total() + (dmntk_verif_sync::stats().ops_any_mode - ops_before);
-    let max_steps = (200_000 + 40 * alone_work) as usize;
+    let warmup = pu64(plan, "warmup");
+    let n_calls_total: u64 = tasks.iter().map(|t| t.len() as u64).sum();
+    // the warm-up calls pass scheduling points too (one runnable task: no decisions, but steps)
+    let max_steps = (200_000 + 40 * alone_work + 4 * warmup * (alone_work / (2 * n_calls_total).max(1) + 8)) as usize;
     // ---- concurrent phase
     let crash = plan.get("crash").filter(|v| !v.is_null()).map(|v| (pu64(v, "task") as usize + 1, pu64(v, "at")));
     let stall = plan.get("stall").filter(|v| !v.is_null()).map(|v| (pu64(v, "task") as usize + 1, pu64(v, "at"), pu64(v, "len")));
@@ -343,6 +346,17 @@ impl C20 {
         }
       }
       let evals = Arc::new(evals);
+      if warmup > 0 {
+        let order: Vec<(usize, usize)> = tasks_arc.iter().enumerate().flat_map(|(ti, t)| (0..t.len()).map(move |ci| (ti, ci))).collect();
+        for i in 0..if order.is_empty() { 0 } else { warmup as usize } {
+          let (ti, ci) = order[i % order.len()];
+          if let Some(input) = &inputs_arc[ti][ci] {
+            let c = &tasks_arc[ti][ci];
+            let _ = do_call(&evals[&c.model], &c.invocable, input);
+            dmntk_verif_sync::flush();
+          }
+        }
+      }
       let mut handles = vec![];
       for ti in 0..tasks_arc.len() {
         let evals = Arc::clone(&evals);
@@ -422,6 +436,11 @@ impl C20 {
     }
     if handover {
       out.counters.inc("mode.handover");
+    }
+    if warmup > 0 {
+      out.counters.inc("mode.soak");
+      out.counters.add("soak.warmup_calls", warmup);
+      out.counters.max("max.soak_warmup_calls", warmup);
     }
     out.log_hash = {
       let mut h = Hasher::default();
@@ -566,9 +585,17 @@ impl Sim for C20 {
     let s = setup();
     let mut rng = Rng::new(derive(seed, "C20", run));
     // 1..3 models per execution; the simulator's own model is in every third plan
-    let n_models = 1 + rng.index(3);
+    // a soak execution: the shared evaluator has served many calls before the tasks start, so that
+    // whatever happens every N-th call (sampling, cache eviction, a counter wrapping) happens while they
+    // run. Only on the simulator's own model, whose decisions are cheap.
+    let soak = rng.chance(1, 25);
+    let n_models = if soak { 1 } else { 1 + rng.index(3) };
     let mut models: Vec<String> = vec![];
     for _ in 0..n_models {
+      if soak {
+        models.push("gen".to_string());
+        break;
+      }
       // a model is drawn through a random workload row half of the time, so models with many invocables and
       // inputs (the lending example, the decision service and built-in function suites) come up more often
       let m = if rng.chance(1, 3) {
@@ -622,7 +649,15 @@ impl Sim for C20 {
     let crash = if rng.chance(1, 5) { json!({"task": rng.index(n_tasks), "at": at(&mut rng)}) } else { Value::Null };
     let stall = if rng.chance(1, 4) { json!({"task": rng.index(n_tasks), "at": at(&mut rng), "len": 5 + rng.below(60)}) } else { Value::Null };
     let handover = rng.chance(1, 20);
-    json!({"tasks": tasks, "sched": sched, "crash": crash, "stall": stall, "handover": handover})
+    let warmup = if soak {
+      let total: u64 = tasks.iter().map(|t| t.as_array().map(|a| a.len() as u64).unwrap_or(0)).sum();
+      let threshold = *rng.pick(&[16u64, 32, 50, 64, 100, 128, 200, 256, 500, 512, 1000, 1000, 1024, 1024, 2048, 4096]);
+      // the threshold-th call is one of the concurrent ones
+      threshold.saturating_sub(1 + rng.below(total.max(1)))
+    } else {
+      0
+    };
+    json!({"tasks": tasks, "sched": sched, "crash": crash, "stall": stall, "handover": handover, "warmup": warmup})
   }
   fn exec(&self, plan: &Value, mode: &ExecMode) -> Outcome {
     self.exec_inner(plan, mode, true)
